@@ -527,8 +527,62 @@ func runC20(c *Ctx) error {
 		}
 	}
 	c.c20RecursiveFault()
+	c.c20DepthFault()
 	c.c20TopLevelFault()
 	return c.c20PosLimits()
+}
+
+// c20DepthFault: the fault is the bound on nested calls itself: the header names the call that was refused, and there
+// is one chain line per call that is active - the refused call is not one of them
+func (c *Ctx) c20DepthFault() {
+	src := "func rec(n int) int {\n\tif n%2 == 0 {\n\t\treturn rec(n + 1)\n\t}\n\treturn rec(n + 1)\n}\nrec(0)\n"
+	for _, opt := range []bool{false, true} {
+		var err error
+		if e := try(func() { _, err = goat.New().VerifEval(src, opt) }); e != nil {
+			err = fmt.Errorf("PANIC escaped: %v", e)
+		}
+		c.Rep.Oracle["depth-fault"]++
+		bad := ""
+		if err == nil || !strings.Contains(err.Error(), "too deep") {
+			bad = "no depth fault: " + fmt.Sprint(err)[:min(len(fmt.Sprint(err)), 200)]
+		} else {
+			lines := strings.Split(err.Error(), "\n")
+			n := len(lines) - 2 // header, chain of rec frames, top-level call site
+			lineOf := func(l string) string {
+				if m := c20Re.FindStringSubmatch(l); m != nil {
+					return m[1] + ":" + m[2]
+				}
+				return "?" + l
+			}
+			switch {
+			case n < 1000:
+				bad = fmt.Sprintf("only %d chain lines", n)
+			case lineOf(lines[len(lines)-1]) != ":7":
+				bad = "outermost line is " + lines[len(lines)-1]
+			default:
+				// frames rec(0) .. rec(n) are active; the refused call is made by rec(n): line 3 if n is even, else 5
+				hdr := "rec:5"
+				if n%2 == 0 {
+					hdr = "rec:3"
+				}
+				if lineOf(lines[0]) != hdr {
+					bad = fmt.Sprintf("%d chain lines, header %s, want %s", n, lineOf(lines[0]), hdr)
+				}
+				for i := 1; i <= n && bad == ""; i++ { // chain line i: the call that entered frame rec(n-i+1), made by rec(n-i)
+					w := "rec:5"
+					if (n-i)%2 == 0 {
+						w = "rec:3"
+					}
+					if lineOf(lines[i]) != w {
+						bad = fmt.Sprintf("chain line %d of %d is %s, want %s", i, n, lineOf(lines[i]), w)
+					}
+				}
+			}
+		}
+		if bad != "" {
+			c.Rep.Violate(Violation{Kind: "oracle", Cut: "depth-fault", Input: fmt.Sprintf("optimize=%v\n%s", opt, src), Impl: bad, Oracle: "header = the refused call; one chain line per active call, innermost first; the top-level call site last"})
+		}
+	}
 }
 
 // c20RecursiveFault: the operation that finally fails IS the recursive call (a nil function value / a nil
